@@ -18,6 +18,16 @@ checks = {
  "C07": dict(cat="exploration", tech="reference-model monitor: run-time generated circuit struct types (reflect.StructOf shape trees + static catalogue) against an independent walk of the shape tree; witness vector, Public()/PublicOnly, binary and JSON round trips, in-circuit binding on both builders with swap-rejection",
    text="~19k (quick) / ~400k (thorough) (shape, field) cases over 6/10 fields: the harness's own implementation of the documented ordering/visibility/naming rule predicts the witness vector, the public prefix, the byte layout and the input wire names; Define asserts each leaf equals its constant and a swapped assignment must be rejected. Observed executions only.",
    note="trusted: math/big for expected values, the harness's shape-tree walker as statement of the documented rule; JSON checked inside the documented domain (no embedded/pointer/any fields)", ref="§3 C07"),
+
+ "C10": dict(cat="exploration", tech="history monitor at the client boundary under the race detector: concurrent Solve / Groth16.Prove / PLONK.Prove on shared system, keys and option value vs the same calls alone; PRNG delays at the solver's Yield hook points; child processes with SIGQUIT watchdog for crash/deadlock; race logs parsed",
+   text="Every concurrent call's outcome (error class, SHA-256 of the solution with commitments replaced by a hash and the mask fixed, or verification result of the produced proof) is compared with the same call executed alone before and after; -race build, reports de-duplicated by the top gnark frames of both accesses; evidence counts overlapping call pairs and distinct orders of reset events. Sampled interleavings only.",
+   note="hash.Hash option objects are not shared between calls; interleavings sampled, not enumerated; watchdog expiry without deadlock evidence is inconclusive", ref="§3 C10"),
+ "C11": dict(cat="exploration", tech="history monitor: repeated / interleaved / parallel / fresh-process compilations of a circuit catalogue, SHA-256 of WriteTo bytes compared; keys reused across recompilations",
+   text="Each of ~27 circuit x builder variants (hints, commitments, lookups, range checks, emulated arithmetic, multicommit, Defer-in-Defer, the wire-to-constraint query interface with addMissing, hashes, a GKR sub-circuit) is compiled 10-60 times in one process, in parallel goroutines and in 2-6 fresh processes (fresh map seeds); all serializations of a variant must be byte-identical. Map iteration orders and schedules are sampled.",
+   note="determinism observed over the runs made", ref="§3 C11"),
+ "C13": dict(cat="exploration", tech="differential monitor (accept iff 0<=v<2^n, lookup==table[i]) on both builders incl. exhaustive tinyfield + adversarial-execution monitor (lying DecomposeHint / countHint, proxy lookup blueprint, two-pass prover solving the log-derivative equation, challenge-dependence of multicommit), commitment = hash",
+   text="~200k (quick) solves: range checks for n in 1..70,100..250, field bits-2..+3 over commit and plain strategies, tables of size 1..300 with constant/witness entries and all query patterns; every implemented lie must make Solve fail, a sample goes through the real Groth16/PLONK provers. Built by a sub-agent and validated against 13 mutants (12 caught, 1 equivalent).",
+   note="log-derivative strategy not run over tinyfield (non-negligible soundness error by design); native Rangechecker strategy never occurs (no builder implements it)", ref="§3 C13"),
 }
 pending = {}
 for i in range(1,21):
